@@ -13,6 +13,19 @@ import common
 ABSENT = None
 
 
+_TEMPLATES = {}
+
+
+def shared_template(src):
+    # compiled templates are shared between cases on purpose: with parameters given as variable names the same compiled
+    # tag is rendered with different values, which exposes anything a rendering leaves behind on the tag
+    from DocumentTemplate import HTML
+    t = _TEMPLATES.get(src)
+    if t is None:
+        t = _TEMPLATES[src] = HTML(src)
+    return t
+
+
 def observe(L, params, via_vars=False, lazy=False):
     """Render a batched dtml-in over a sequence of length L with the real code and return
     the observation dict."""
@@ -49,7 +62,7 @@ def observe(L, params, via_vars=False, lazy=False):
     if lazy:
         seq = iter(seq)
     try:
-        out = HTML(src)(seq=seq, rec=rec, **kw)
+        out = shared_template(src)(seq=seq, rec=rec, **kw)
     except Exception as e:  # noqa
         return {'exc': type(e).__name__, 'src': src}
     if out == 'EMPTY':
